@@ -10,8 +10,8 @@ from harness.props.recording_check import RecordingCheck
 from harness.props.recording_lib import FCRASH, FFAIL, FOK, Tree, World
 
 # finding keys: <symptom>:<fault kind>@<innermost backend call stack of the faulted commit>
-K_ROWS = "retry-loses-records:CallSubtreeTask@record_call_node"
-K_ARG = "retry-loses-records:Argument@record_call_node>_record_args>record_value"
+#   recovery-<same|edited>:<kind>@<site>:<workload>:<died:Exc | stale-result:value>, fk-violation:...:<child->parent tables>,
+#   run-dies-on-transient-error@<site>:<workload>:died:<Exc>, retry-changes-records:record_call_node(<scenario>):...:lost=<tables>
 
 
 class Check(RecordingCheck):
@@ -100,8 +100,8 @@ class Check(RecordingCheck):
                     self.stat("e2e_run1", o["run1"][0])
                     replay = {"kind": "e2e", "workload": name, "plan": [FOK] * i + [fate]}
                     # the fault point: workload, backend call stack of the commit, and which occurrence of it
-                    site = f"{o['site'] or '?'}#{occ[i]}:{name}"
-                    replay["fault_point"] = f"{kind}@{site} (commit {i})"
+                    site = f"{o['site'] or '?'}:{name}"
+                    replay["fault_point"] = f"{kind}@{site} (commit {i}, occurrence {occ[i]} of this call stack)"
                     if o["fk"]:
                         tables = sorted({f"{r[0]}->{r[2]}" for r in o["fk"]})
                         self.findings.append(Finding(
